@@ -99,9 +99,9 @@ var specs = map[string]Spec{
 			"one plugin naming the same file twice under two spellings is not generated (the property speaks of two sources)", "no symlinks inside the output directory"},
 	},
 	"C16": {
-		Prop: "C16", Engine: "plugin-world", Level: "fault_enumeration", Binary: "root",
+		Prop: "C16", Engine: "plugin-world", Level: "fault_enumeration", Binary: "root", Race: true,
 		Quick:    Tier{Count: 2500, Floor: true, BudgetS: 45},
-		Thorough: Tier{Count: 400000, Floor: true, BudgetS: 1200, Fidelity: 3000},
+		Thorough: Tier{Count: 400000, Floor: true, BudgetS: 1200, Fidelity: 3000, RaceCount: 24000},
 		Rule: "systematic floor: 1 scripted plugin x 3 protocol steps x 13 reply actions, truncation at byte offsets 0..159 (mod frame length), whole and 1-byte writes, each with seeded chunking/interleaving; " +
 			"seeded search: 0-3 plugins (scripted or real plugin.Main) with independent fault scripts, random programs, options, chunking, strategies, preemption, frame fast-path threshold. " +
 			"A run is non-trivial if at least one plugin process was started; distinct = distinct recorded choice lists among those.",
